@@ -180,6 +180,31 @@ def run(F, rep):
     got = g_sign * sign(nth_arg(cv[0], 0), 1)
     rep.check(got == -1 or g_sign == 0, 'C03.S3', 'generator|initialising-variable', gi.where(cv[0]), 'the initialising variable is multiplied by s^%+d; its value is given in its own units, so the primary variable needs s^-1' % got, 's^-1')
 
+    # ------------------------------------------------------------------ S4: the AST the analyser scales is the AST it builds
+    rep.rule('C03.S4', 'the fields through which scaleEquationAst walks an equation (children of AnalyserEquationAstImpl) are the fields through which analyser.cpp links a child into an AST: '
+                       'a subtree attached through another field (the non-owning public setters) is never visited, so the variables in it are not scaled')
+    import fields as _fields
+    trav = {m['n'] for c in se.walk() if c.get('k') == 'Call' and se.key in F.callee_keys(c) for m in walk(c) if m.get('k') == 'Member' and m.get('field') and 'Child' in m.get('n', '')}
+    if not trav:
+        raise AnalysisBroken('scaleEquationAst: recursion through child fields not found')
+    n_link = 0
+    from engines import is_write_context
+    for g in F.funcs.values():
+        if not g.file.endswith('/analyser.cpp'):
+            continue
+        for m in g.walk():
+            if m.get('k') == 'Member' and m.get('field') and 'Child' in m.get('n', '') and 'AnalyserEquationAstImpl' in (m.get('q') or '') and is_write_context(g, m):
+                n_link += 1
+                rep.check(m['n'] in trav, 'C03.S4', '%s|%s' % (g.short.split('::')[-1], m['n']), g.where(m), '%s links a child through %s, but scaleEquationAst only walks %s' % (g.short, m['n'], sorted(trav)), 'walked field')
+            if m.get('k') == 'Call' and m.get('mc') and m.get('callee') in ('libcellml::AnalyserEquationAst::setLeftChild', 'libcellml::AnalyserEquationAst::setRightChild'):
+                callee = F.funcs.get(m.get('ck'))
+                w = _fields.this_writes(F, callee) if callee is not None else set()
+                n_link += 1
+                rep.check(bool(w) and w <= trav, 'C03.S4', '%s|%s' % (g.short.split('::')[-1], render(m)[:40]), g.where(m),
+                          '%s links a child with `%s`, which writes %s; scaleEquationAst only walks %s: variables below that child are never scaled' % (g.short, render(m)[:50], sorted(w), sorted(trav)), 'walked field')
+    if n_link < 6:
+        raise AnalysisBroken('C03.S4: only %d AST links found in analyser.cpp (8 confirmed)' % n_link)
+
     # ------------------------------------------------------------------ E
     rep.rule('C03.E1', 'generateEquationCode emits every dependency of an equation before the equation itself and drops the equation from the work list before recursing')
     ge = [f for f in F.fn('Generator::GeneratorImpl::generateEquationCode') if len(f.params) == 4]
@@ -195,3 +220,8 @@ def run(F, rep):
     cfg = ge.cfg()
     rep.check(not [c for c in rec if _can_reach(cfg, role(sw2[0], 'cond'), c)], 'C03.E1', 'dependencies-first', ge.where(), 'a dependency can be generated after the equation\'s own code', 'all dependencies precede the equation\'s code')
     rep.check(bool(er) and all(cfg.node_dominates(er[0], c) for c in rec), 'C03.E1', 'work-list', ge.where(), 'the equation is not removed from the work list before its dependencies are generated', 'removed before recursing')
+
+
+    # ------------------------------------------------------------------ H: no generator state survives between calls (clause shared with C12)
+    import c12
+    c12.rule_h1(F, rep, 'C03.H1', [st for st in c12.STATE if st[0] == 'Generator::GeneratorImpl'])
